@@ -19,6 +19,7 @@ def run(ctx):
     cg = mirlib.CallGraph(prog)
     pr.merge_semantics(rep, 'R18.b', prog, cg)
     rep.floor('R18.b', 38)
+    pr.bytes_adapter_replaces(rep, 'R18.b', prog, cg)
     # no decoder guard is stricter than the operation needs (a value / unknown field ending exactly at the end of the input is complete)
     import audit
     import scopes
